@@ -1,13 +1,22 @@
 """C17 - equivalent ways of describing the same calibration give the same result.
 
-Theorems (coq/Properties_C17.v): through = line = mapped matrix and full vs abbreviated on the
-structural model AddModel (tied to the library by C01's structural correspondence, repeated here on the
-pairs), a/b scaling, order of the equations, port renumbering at matrix level (mathcomp, any n).
-Tie / support: pairs of scenarios related by each transformation of the property run through the
-public C API (harness/calcore_e2e.c); applied S-parameters compared to 1e-9 relative; for through /
-line / mapped and full / abbreviated the structural dumps are compared exactly.  Also: 3-4-port
-standards on permuted ports (full vs abbreviated), order on noisy data with m_error, and histories of
-the interpolation hint of shared vector parameters (see docs/design_C17.md).
+Theorems (coq/Properties_C17.v), on the structural model AddModel: the three entry points through / line /
+mapped matrix build the same arguments (by construction); the port-map sort sorts and the B cell -> M cell
+map does not depend on the order of the port map (all arguments); bounded sweep full vs abbreviated
+(acceptance, where the values are stored, S / connectivity, equations); a permutation of the add calls
+permutes the rows of every system (all lists).  Matrix algebra only (mathcomp): a/b scaling, order of the
+equations (A^H A), conjugation of the T-form equation.
+Ties (white box, exact): (1) the model ENTRY POINTS (extracted add_single_reflect .. add_mapped_matrix) against
+the C wrappers on random call sequences - outcome and structure dump including the B cell -> M cell map read
+back from vnm_m_matrix (tagged cells); (2) on the C side alone, a full matrix whose cells carry their own
+index and its abbreviations (rows / columns of the ports in ascending order): every value must land in the
+cell the full call puts it in.
+Support: pairs of scenarios related by each transformation of the property run through the public C API
+(harness/calcore_e2e.c); applied S-parameters compared to 1e-9 relative; for through / line / mapped and
+full / abbreviated the structural dumps are compared exactly, for port renumbering the connectivity
+matrices must be renumbered copies.  Also: 3-4-port standards on permuted ports (full vs abbreviated),
+4-port standards with non-reciprocal zero patterns (renumbering, order), order on noisy data with m_error,
+and histories of the interpolation hint of shared vector parameters (see docs/design_C17.md).
 """
 import copy
 import os
@@ -200,9 +209,86 @@ def t_order_noisy(rng, sc):
     return [s2, s3], "value-strict"
 
 
+def uf_depth(p, nz):
+    """depth of the forest a row-major union-find scan (smaller index leads, collapsing find) leaves for the
+    off-diagonal non-zero cells nz of a p x p matrix: 1 = every element points at its leader"""
+    s = list(range(p))
+
+    def find(i):
+        l = i
+        while s[l] != l:
+            l = s[l]
+        s[i] = l
+        return l
+    for r in range(p):
+        for c in range(p):
+            if r != c and (r, c) in nz:
+                i, j = find(r), find(c)
+                if i < j:
+                    s[j] = i
+                elif i > j:
+                    s[i] = j
+    d = 0
+    for i in range(p):
+        n, l = 0, i
+        while s[l] != l:
+            l = s[l]
+            n += 1
+        d = max(d, n)
+    return d
+
+
+def add_nonreciprocal(rng, sc, n=2):
+    """fully known 4-port standards (couplers / isolators) whose pattern of known-zero off-diagonal cells is
+    directional; half of them chosen such that the union-find scan of the full S matrix leaves a chain"""
+    p = sc.p
+    for _ in range(n):
+        k = p
+        for attempt in range(200):
+            ports = rng.sample(range(1, p + 1), k)
+            nz = set()
+            cells = [(a, b) for a in range(k) for b in range(k) if a != b]
+            for cell in rng.sample(cells, rng.randint(3, 4)):
+                nz.add(cell)
+            full_nz = set((ports[a] - 1, ports[b] - 1) for a, b in nz)
+            if attempt >= 100 or rng.random() < 0.3 or uf_depth(p, full_nz) >= 2:
+                break
+        pat = [[0j] * k for _ in range(k)]
+        for a in range(k):
+            for b in range(k):
+                if a == b:
+                    pat[a][b] = calcore.small(rng, 1.6)
+                elif (a, b) in nz:
+                    pat[a][b] = (0.75 + rng.randint(0, 8) / 32.0) * calcore.unit(rng)
+        st = calcore.Std("mm", ports, calcore.const_over_f(sc.F, pat), scalar=True)
+        st.first_of = []
+        st.brows, st.bcols = sc.r, sc.c
+        st.form = rng.choice(["m", "ab"])
+        calcore.finish_std(rng, sc, st, sc.fill)
+        sc.stds.insert(rng.randrange(len(sc.stds) + 1), st)
+
+
+def t_renumber_nr(rng, sc):
+    """port renumbering with 4-port mapped-matrix standards whose zero pattern is non-reciprocal"""
+    add_nonreciprocal(rng, sc)
+    return t_renumber(rng, sc)
+
+
+def t_order_nr(rng, sc):
+    add_nonreciprocal(rng, sc)
+    s2 = copy.deepcopy(sc)
+    rng.shuffle(s2.stds)
+    s3 = copy.deepcopy(sc)
+    s3.stds.reverse()
+    return [s2, s3], "value"
+
+
+NR_TYPES = ["TE10", "UE10", "UE14", "E12", "TE10", "UE10", "UE14", "E12", "T8", "U8", "T16"]
+
 TRANSFORMS = [("through=line=mapped", t_entry), ("full=abbreviated", t_full), ("order", t_order),
               ("ab-scaling", t_scale), ("E12=UE14", t_e12), ("renumbering", t_renumber),
-              ("full=abbreviated(3-4 ports)", t_full_multi), ("order(noisy,m_error)", t_order_noisy)]
+              ("full=abbreviated(3-4 ports)", t_full_multi), ("order(noisy,m_error)", t_order_noisy),
+              ("renumbering(4-port non-reciprocal)", t_renumber_nr), ("order(4-port non-reciprocal)", t_order_nr)]
 
 
 # ----------------------------------------------------------------------------- interpolation-hint histories
@@ -267,6 +353,253 @@ def hint_scripts(rng, sc):
     return out
 
 
+# ----------------------------------------------------------------------------- white-box ties
+def model_fn_line(a, handle):
+    """the call as a call of the MODEL ENTRY POINT (extracted AddModel.add_single_reflect .. add_mapped_matrix)"""
+    h = [handle[x] for x in a["toks"]]
+    head = "addfn %s %d %d %d %d %d" % (a["fn"], 1 if a["ab"] else 0, a["ar"] if a["ab"] else 0,
+                                        a["ac"] if a["ab"] else 0, a["br"], a["bc"])
+    fn = a["fn"]
+    if fn == "sr":
+        return "%s %d %d" % (head, h[0], a["ports"][0])
+    if fn == "dr":
+        return "%s %d %d %d %d" % (head, h[0], h[1], a["ports"][0], a["ports"][1])
+    if fn == "th":
+        return "%s %d %d" % (head, a["ports"][0], a["ports"][1])
+    if fn == "ln":
+        return "%s %s %d %d" % (head, " ".join(str(x) for x in h), a["ports"][0], a["ports"][1])
+    mp = a["ports"][:max(a["sr"], a["sc"], 0)] if a["mapflag"] else []
+    return "%s %d %d %d %s %d %d %s" % (head, a["sr"], a["sc"], len(h), " ".join(str(x) for x in h),
+                                        1 if a["mapflag"] else 0, len(mp), " ".join(str(x) for x in mp))
+
+
+def entry_point_tie(ctx, exe):
+    """Model entry points (extracted) against the C wrappers: random call sequences (valid and invalid, permuted
+    port maps, abbreviated matrices, m and a/b forms), outcome of every call and the structure dump - given cells,
+    B cell -> M cell map (tagged cells), S cells, connectivity, equations and terms - compared exactly."""
+    drv = calcore.model_driver(ctx)
+    ncase = 160 if ctx.tier == "quick" else 1600
+    cases = []
+    for i in range(ncase):
+        rng = random.Random(ctx.rng.getrandbits(64))
+        typ = TYPES[i % len(TYPES)]
+        while True:
+            r, c = rng.randint(1, 4), rng.randint(1, 4)
+            if i % 3 == 0:
+                r, c = max(r, 3), max(c, 3)
+            if dims_allowed(typ, r, c):
+                break
+        merr = 1 if rng.random() < 0.15 else 0
+        adds, handle, npar = calcore.gen_struct_case(rng, typ, r, c, rng.randint(2, 10), npar=rng.randint(4, 20))
+        cases.append({"typ": typ, "r": r, "c": c, "merr": merr, "adds": adds, "handle": handle, "npar": npar})
+    lines = []
+    for cs in cases:
+        code = 7 if cs["typ"] == "E12" else calcore.TYPE_CODE[cs["typ"]]
+        lines.append("cfg %d %d %d %d %d" % (code, cs["r"], cs["c"], cs["merr"], 3 + cs["npar"]))
+        for a in cs["adds"]:
+            lines.append(model_fn_line(a, cs["handle"]))
+        lines.append("dump")
+    rc, mout, merr_ = vplib.sh([drv], input="\n".join(lines) + "\n", timeout=900)
+    if rc != 0:
+        raise vplib.BuildError("model driver drv_calcore failed: " + merr_[-400:])
+    mlines = mout.split("\n")
+    pos = 0
+    for cs in cases:
+        cs["model_out"] = mlines[pos:pos + len(cs["adds"])]
+        pos += len(cs["adds"])
+        body = []
+        while mlines[pos] != "enddump":
+            body.append(mlines[pos])
+            pos += 1
+        pos += 1
+        cs["model_dump"] = body
+
+    def run_c(cs):
+        s = ["scalar %d %s %s" % (k, calcore.hx(0.3 + 0.01 * k), calcore.hx(0.125)) for k in range(cs["npar"])]
+        s.append("new 0 %d %d %d 1 %s" % (calcore.TYPE_CODE[cs["typ"]], cs["r"], cs["c"], calcore.hx(1e9)))
+        if cs["merr"]:
+            s.append("merror 0 %s %s" % (calcore.hx(1e-3), calcore.hx(1e-3)))
+        for a, mo in zip(cs["adds"], cs["model_out"]):
+            if not mo.startswith("add abort"):
+                s.append(calcore.struct_c_line(cs["typ"], a))
+        s += ["dump 0", "free 0"]
+        text = "\n".join(s) + "\n"
+        return (text,) + calcore.run_script(ctx, exe, text)
+    with concurrent.futures.ThreadPoolExecutor(max_workers=min(8, vplib.NPROC)) as ex:
+        results = list(ex.map(run_c, cases))
+    bad = []
+    nacc = nmaps = nunsorted = 0
+    for cs, (text, rc, out, err) in zip(cases, results):
+        ctx.count()
+        if rc != 0:
+            sig = vplib.asan_signature(err) or {"kind": "fault", "error": "exit %d" % rc, "function": None}
+            bad.append((sig, "library stopped on an add sequence (%s %dx%d): %s" % (
+                cs["typ"], cs["r"], cs["c"], (err.strip().split("\n") or [""])[0][:200]), cs, text))
+            continue
+        recs = calcore.parse_output(out)
+        cadds = [x for k, x in recs if k == "add"]
+        mo = [m for m in cs["model_out"] if not m.startswith("add abort")]
+        mism = None
+        for j, (ca, m) in enumerate(zip(cadds, mo)):
+            cacc = ca.get("rc") == "0"
+            if cacc != (m == "add rc=0") or (not cacc and ca.get("errno") != "EINVAL"):
+                mism = "call #%d: library %s, model entry point %s" % (j, ca["line"], m)
+                break
+            nacc += cacc
+        if mism is None:
+            dm = [x for k, x in recs if k == "dump"]
+            cbody = ([dm[0]["line"]] + dm[0]["body"]) if dm else []
+            if cbody != cs["model_dump"]:
+                for a_, b_ in zip(cbody + ["<end>"], cs["model_dump"] + ["<end>"]):
+                    if a_ != b_:
+                        mism = "structure dumps differ: library %r, model %r" % (a_, b_)
+                        break
+            nmaps += len([l for l in cbody if l.startswith("B ")])
+        if mism is not None:
+            bad.append(({"kind": "struct", "class": "entry-point", "type": cs["typ"]},
+                        "%s %dx%d: %s" % (cs["typ"], cs["r"], cs["c"], mism), cs, text))
+        else:
+            ctx.nontrivial.add(("entry", len(ctx.nontrivial)))
+            ctx.traces_validated += 1
+    ctx.extra["entry_point_cases"] = len(cases)
+    ctx.extra["entry_point_calls_accepted"] = nacc
+    ctx.extra["entry_point_cell_maps_compared"] = nmaps
+    ctx.obligation("tie:model entry points (add_single_reflect .. add_mapped_matrix) and B cell -> M cell map vs the C "
+                   "wrappers and vnm_m_matrix (exact)", not bad and nmaps > 0, bad[0][1] if bad else "")
+    for sig, what, cs, text in bad[:3]:
+        ctx.violation(sig, what, {"case": {k2: v for k2, v in cs.items() if k2 != "model_dump"}, "script": text[:60000],
+                                  "model_dump_head": cs.get("model_dump", [])[:30]})
+    return bad
+
+
+def cell_map_tie(ctx, exe):
+    """C side alone: one standard entered with the full matrix whose cell (i, j) holds the tag i * cols + j + 1 and
+    with every abbreviated shape, the abbreviated matrix being the rows / columns of the standard's VNA ports in
+    ASCENDING order of that full matrix (vnacal_new_add_*(3)), ports listed in random order.  Every value of an
+    abbreviated matrix must be stored in the cell of vnm_m_matrix in which the full call stores it."""
+    ncase = 320 if ctx.tier == "quick" else 3200
+    cases = []
+    for i in range(ncase):
+        rng = random.Random(ctx.rng.getrandbits(64))
+        typ = TYPES[i % len(TYPES)]
+        while True:
+            r, c = rng.randint(1, 4), rng.randint(1, 4)
+            if i % 4 != 0:
+                r, c = max(r, 3), max(c, 3)
+            if i % 8 < 4 and i % 4 != 0:
+                r = c = max(r, c)
+            if dims_allowed(typ, r, c):
+                break
+        p = max(r, c)
+        k = rng.randint(1, p) if rng.random() < 0.3 else rng.randint(2, max(2, p - 1))
+        k = min(k, p)
+        ports = rng.sample(range(1, p + 1), k)
+        if ports == sorted(ports) and k >= 2 and rng.random() < 0.7:
+            ports.reverse()
+        fn = "mm"
+        if k == 1 and rng.random() < 0.5:
+            fn = "sr"
+        elif k == 2:
+            fn = rng.choice(["dr", "th", "ln", "mm"])
+        asc = sorted(ports)
+        shapes = [(r, c)]
+        if typ == "T16":
+            minr, minc = k, c
+        elif typ == "U16":
+            minr, minc = r, k
+        else:
+            minr, minc = k, k
+        for br in sorted(set([r, minr])):
+            for bc in sorted(set([c, minc])):
+                if (br, bc) != (r, c) and br <= r and bc <= c and (br == r or all(q <= r for q in ports)) \
+                        and (bc == c or all(q <= c for q in ports)):
+                    shapes.append((br, bc))
+        cases.append({"typ": typ, "r": r, "c": c, "fn": fn, "ports": ports, "asc": asc, "shapes": shapes,
+                      "ab": rng.random() < 0.3})
+
+    def script(cs):
+        typ, r, c, k = cs["typ"], cs["r"], cs["c"], len(cs["ports"])
+        s = ["scalar %d %s %s" % (q, calcore.hx(0.3 + 0.01 * q), calcore.hx(0.125)) for q in range(k * k)]
+        s.append("new 0 %d %d %d 1 %s" % (calcore.TYPE_CODE[typ], r, c, calcore.hx(1e9)))
+        for br, bc in cs["shapes"]:
+            rows = list(range(r)) if br == r else [q - 1 for q in cs["asc"]]
+            cols = list(range(c)) if bc == c else [q - 1 for q in cs["asc"]]
+            vals = " ".join("%s %s" % (calcore.hx(float(i * c + j + 1)), calcore.hx(0.0)) for i in rows for j in cols)
+            if cs["ab"]:
+                ar = 1 if calcore.is_col(typ) else bc
+                a = " ".join("%s %s" % (calcore.hx(1.0 if (i == j or calcore.is_col(typ)) else 0.0), calcore.hx(0.0))
+                             for i in range(ar) for j in range(bc))
+                head = "add 0 %s ab %d %d %d %d %s %s" % (cs["fn"], ar, bc, br, bc, a, vals)
+            else:
+                head = "add 0 %s m 0 0 %d %d %s" % (cs["fn"], br, bc, vals)
+            pt = cs["ports"]
+            if cs["fn"] == "sr":
+                tail = "p0 %d" % pt[0]
+            elif cs["fn"] == "dr":
+                tail = "p0 p3 %d %d" % (pt[0], pt[1])
+            elif cs["fn"] == "th":
+                tail = "%d %d" % (pt[0], pt[1])
+            elif cs["fn"] == "ln":
+                tail = "p0 p1 p2 p3 %d %d" % (pt[0], pt[1])
+            else:
+                tail = "%d %d %s 1 %s" % (k, k, " ".join("p%d" % q for q in range(k * k)), " ".join(str(q) for q in pt))
+            s.append(head + " " + tail)
+        s += ["dump 0", "free 0"]
+        return "\n".join(s) + "\n"
+
+    def run_c(cs):
+        text = script(cs)
+        return (text,) + calcore.run_script(ctx, exe, text)
+    with concurrent.futures.ThreadPoolExecutor(max_workers=min(8, vplib.NPROC)) as ex:
+        results = list(ex.map(run_c, cases))
+    bad = []
+    ncmp = nuns = 0
+    for cs, (text, rc, out, err) in zip(cases, results):
+        ctx.count()
+        if rc != 0:
+            sig = vplib.asan_signature(err) or {"kind": "fault", "error": "exit %d" % rc, "function": None}
+            bad.append((sig, "library stopped (%s %dx%d): %s" % (cs["typ"], cs["r"], cs["c"],
+                                                                 (err.strip().split("\n") or [""])[0][:200]), cs, text))
+            continue
+        recs = calcore.parse_output(out)
+        cadds = [x for k, x in recs if k == "add"]
+        problem = None
+        if len(cadds) != len(cs["shapes"]) or any(x.get("rc") != "0" for x in cadds):
+            problem = "a documented shape was refused: %s" % [x["line"] for x in cadds if x.get("rc") != "0"][:2]
+        else:
+            dm = [x for k, x in recs if k == "dump"]
+            maps = [l.split("map=", 1)[1] for l in (dm[0]["body"] if dm else []) if l.startswith("B ")]
+            if len(maps) != len(cs["shapes"]):
+                problem = "%d cell maps in the dump for %d calls" % (len(maps), len(cs["shapes"]))
+            else:
+                def pairs(m):
+                    return [tuple(int(v) for v in x.split(":")) for x in m.split(",") if x]
+                full = dict(pairs(maps[0]))
+                if full != {q: q + 1 for q in range(cs["r"] * cs["c"])}:
+                    problem = "full matrix stored as %s" % maps[0]
+                for (br, bc), m in zip(cs["shapes"][1:], maps[1:]):
+                    pr = pairs(m)
+                    if len(pr) != br * bc or any(full.get(cell) != tag for cell, tag in pr):
+                        problem = ("%s ports %s, %d x %d matrix: values stored in vnm_m_matrix as cell:tag %s, the full "
+                                   "matrix has cell q in cell q (tag q+1)" % (cs["fn"], cs["ports"], br, bc, m))
+                        break
+                    ncmp += 1
+                    nuns += cs["ports"] != cs["asc"]
+        if problem:
+            bad.append(({"kind": "struct", "class": "cell-map", "type": cs["typ"]},
+                        "%s %dx%d: %s" % (cs["typ"], cs["r"], cs["c"], problem), cs, text))
+        else:
+            ctx.nontrivial.add(("cellmap", len(ctx.nontrivial)))
+            ctx.traces_validated += 1
+    ctx.extra["cell_map_abbreviated_calls_compared"] = ncmp
+    ctx.extra["cell_map_abbreviated_calls_unsorted_map"] = nuns
+    ctx.obligation("tie:abbreviated matrix = rows/columns of the ports in ascending order of the full matrix, in "
+                   "vnm_m_matrix (C side, tagged cells)", not bad and nuns > 0, bad[0][1] if bad else "")
+    for sig, what, cs, text in bad[:3]:
+        ctx.violation(sig, what, {"case": cs, "script": text[:60000]})
+    return bad
+
+
 def script_of(sc, dump=True):
     return calcore.scenario_script(sc, dump=dump).text()
 
@@ -274,14 +607,17 @@ def script_of(sc, dump=True):
 def run(ctx):
     ctx.level = "proof"
     ctx.trusted_base = [
-        "Coq 8.16.1 kernel; vm_compute for the bounded enumeration of full_eq_abbreviated; mathcomp for the matrix theorems",
-        "models coq/Cal/AddModel.v, TermsModel.v tied to the library by the structural correspondence of check C01 (and the pair dumps here)",
-        "exact field arithmetic in place of binary64; the relations are checked on the C API to 1e-9 (support)",
+        "Coq 8.16.1 kernel incl. its VM (vm_cast of the bounded sweep abbreviated_agrees_with_full_swept); mathcomp for the matrix identities",
+        "models coq/Cal/AddModel.v (incl. the entry points and the B cell -> M cell map), TermsModel.v tied to the library by the "
+        "entry-point / structure correspondence here and by the structural correspondence of check C01; extraction to OCaml",
+        "the harness reads the B cell -> M cell map back from the values stored in vnm_m_matrix (cells tagged 1, 2, ..; m form or a = identity)",
+        "exact field arithmetic in place of binary64; the relations between complete runs are checked on the C API to 1e-9 (support, not proof)",
         "gcc, ASan/UBSan/LSan",
     ]
     ctx.assumptions = ["exact arithmetic stands for binary64", "well-conditioned, model-consistent data"]
     ctx.rule = ("one evaluation = one pair (or triple) of complete calibration scenarios related by one transformation, run "
-                "through the public API; distinct non-trivial = pairs in which both sides solved and were compared")
+                "through the public API, or one random call sequence / one standard in all its shapes of the white-box ties; "
+                "distinct non-trivial = pairs in which both sides solved and were compared, sequences whose dumps were compared")
     files = ["Gen/LayoutGen.v", "Cal/TermsModel.v", "Cal/AddModel.v", "Cal/TermsProofs.v", "Cal/C17Proofs.v",
              "Cal/CalAlgebra.v", "Properties_C17.v"]
     # Gen/LayoutGen.v is regenerated by the translator of C01
@@ -307,6 +643,8 @@ def run(ctx):
             del ctx.obligations[n0:]
 
     exe = ctx.build_harness("calcore_e2e", san=True, wrap=True, defines=["CALCORE_WRAP"])
+    entry_point_tie(ctx, exe)
+    cell_map_tie(ctx, exe)
     npairs = 28 if ctx.tier == "quick" else 120
     jobs = []
     for tname, tf in TRANSFORMS:
@@ -317,6 +655,9 @@ def run(ctx):
                 if tname == "E12=UE14":
                     typ = rng.choice(["UE14", "E12"])
                 r, c = rng.randint(1, 4), rng.randint(1, 4)
+                if tname.endswith("(4-port non-reciprocal)"):
+                    typ = rng.choice(NR_TYPES)
+                    r = c = 4
                 if not dims_allowed(typ, r, c) or not calcore.apply_accepts(r, c):
                     continue
                 if tname == "renumbering" and r != c:
@@ -455,6 +796,27 @@ def run(ctx):
             if mode not in ("renumber", "value-strict") and rel_diff(truth, ref) > TOL:
                 continue
             problem = "applied S-parameters differ by %.3g relative" % d
+        if problem is None and mode == "renumber":
+            # white box: the connectivity matrix of every standard is the renumbered copy
+            ca = [l[2:] for l in (all_lines(results[0][1]) or []) if l.startswith("C ")]
+            for g, (_, recs, _) in zip(group[1:], results[1:]):
+                cb = [l[2:] for l in (all_lines(recs) or []) if l.startswith("C ")]
+                p_ = sc.p
+                if len(ca) != len(cb) or not ca:
+                    problem = "structure dumps of the renumbered run: %d connectivity matrices against %d" % (len(cb), len(ca))
+                    break
+                for k_, (a_, b_) in enumerate(zip(ca, cb)):
+                    if a_ == "-" or b_ == "-":
+                        ok_ = a_ == b_
+                    else:
+                        ok_ = len(a_) == len(b_) == p_ * p_ and all(
+                            b_[g.perm[i] * p_ + g.perm[j]] == a_[i * p_ + j] for i in range(p_) for j in range(p_))
+                    if not ok_:
+                        problem = ("connectivity matrix of standard %d is not the renumbered copy: %s before, %s after "
+                                   "renumbering the ports by %s" % (k_, a_, b_, [q + 1 for q in g.perm]))
+                        break
+                if problem:
+                    break
         if problem is None and mode == "exact":
             dumps = [all_lines(recs) for _, recs, _ in results]
             if any(x != dumps[0] for x in dumps[1:]):
@@ -546,7 +908,7 @@ def run(ctx):
     ctx.extra["worst_relative_difference"] = worst
     total = len(jobs) + len(special) + len(hint_jobs)
     ok = not bad and used >= total * 3 // 4
-    ctx.obligation("tie:pairs of equivalent descriptions / histories through the C API (11 transformations)", ok,
+    ctx.obligation("tie:pairs of equivalent descriptions / histories through the C API (13 transformations)", ok,
                    bad[0][1] if bad else ("only %d of %d pairs usable" % (used, total) if not ok else ""))
     seen = set()
     for sig, what, sc in bad:
